@@ -181,3 +181,171 @@ Qed.
 
 Lemma refs_repeat_dead n : refs (repeat Dead n) = [].
 Proof. induction n; simpl; auto. Qed.
+
+(* ------------------------------------------------------------------ invariant *)
+
+(* X: locations owned by temporaries of type `any` in the middle of a member function *)
+Record invx (X : list loc) (st : state) : Prop := {
+  ix_own : forall x, cnt x (refs (st_pool st)) + cnt x X = cnt x (keys (st_heap st));
+  ix_log : forall x, cnt x (st_alog st) = cnt x (st_dlog st) + cnt x (keys (st_heap st));
+  ix_once : forall x, cnt x (st_alog st) <= 1;
+  ix_fresh : forall x, st_next st <= x -> cnt x (st_alog st) = 0;
+  ix_nofault : st_faults st = []
+}.
+
+Definition inv (st : state) : Prop := invx [] st.
+
+Lemma inv_init n : inv (init n).
+Proof.
+  constructor; simpl; intros; auto. rewrite refs_repeat_dead. auto.
+Qed.
+
+Lemma ix_key1 X st x : invx X st -> cnt x (keys (st_heap st)) <= 1.
+Proof. intros [_ Hl Ho _ _]. specialize (Hl x). specialize (Ho x). lia. Qed.
+
+Lemma ix_key_lt X st x : invx X st -> 1 <= cnt x (keys (st_heap st)) -> x < st_next st.
+Proof.
+  intros [_ Hl _ Hf _] H. destruct (Nat.lt_ge_cases x (st_next st)); auto.
+  specialize (Hf x H0). specialize (Hl x). lia.
+Qed.
+
+(* no container references a freed location *)
+Lemma inv_owned X st d l : invx X st -> pget d st = Live (Some l) -> exists c, hget l (st_heap st) = Some c.
+Proof.
+  intros I H. unfold pget in H. apply cnt_refs_nth in H.
+  pose proof (ix_own _ _ I l).
+  destruct (hget l (st_heap st)) eqn:E; eauto.
+  apply hget_none_cnt in E. lia.
+Qed.
+
+(* a location is referenced by at most one container *)
+Lemma inv_unique X st d e l : invx X st -> pget d st = Live (Some l) -> pget e st = Live (Some l) -> d = e.
+Proof.
+  intros I Hd He. destruct (Nat.eq_dec d e); auto. exfalso.
+  pose proof (cnt_refs_two _ _ _ _ n Hd He).
+  pose proof (ix_own _ _ I l). pose proof (ix_key1 _ _ l I). lia.
+Qed.
+
+(* every live location is referenced by a container (or a temporary) *)
+Lemma inv_no_orphan st l c : inv st -> hget l (st_heap st) = Some c -> exists d, pget d st = Live (Some l).
+Proof.
+  intros I H. apply cnt_refs_ex.
+  pose proof (ix_own _ _ I l). simpl in H0.
+  assert (hget l (st_heap st) <> None) by congruence. apply hget_cnt in H1. lia.
+Qed.
+
+Lemma inv_owned_lt X st d l : invx X st -> pget d st = Live (Some l) -> l < st_next st.
+Proof.
+  intros I H. destruct (inv_owned _ _ _ _ I H) as [c Hc].
+  apply (ix_key_lt _ _ _ I). apply hget_cnt. congruence.
+Qed.
+
+(* ------------------------------------------------------------------ views *)
+
+Lemma nth_views e st : nth e (views st) VDead = view_of e st.
+Proof.
+  unfold views, view_of, pget. change VDead with (vslot (st_heap st) Dead). apply map_nth.
+Qed.
+
+Lemma length_views st : length (views st) = length (st_pool st).
+Proof. unfold views. apply map_length. Qed.
+
+Lemma views_ext st' vs :
+  length (st_pool st') = length vs -> (forall e, view_of e st' = nth e vs VDead) -> views st' = vs.
+Proof.
+  intros Hl H. apply (nth_ext _ _ VDead VDead).
+  - rewrite length_views. auto.
+  - intros e _. rewrite nth_views. auto.
+Qed.
+
+Lemma vslot_frame h h' s : (forall l, s = Live (Some l) -> hget l h' = hget l h) -> vslot h' s = vslot h s.
+Proof. destruct s as [|[l|]]; simpl; auto. intro H. rewrite (H l eq_refl). auto. Qed.
+
+Lemma vlive_view d st : vlive (view_of d st) = is_live d st.
+Proof.
+  unfold view_of, is_live. destruct (pget d st) as [|[l|]]; simpl; auto.
+  destruct (hget l (st_heap st)) as [[t v]|]; auto.
+Qed.
+
+Lemma vfree_views d st : vfree d (views st) = is_free d st.
+Proof. unfold vfree, is_free, vget. rewrite nth_views, length_views, vlive_view. auto. Qed.
+
+(* ------------------------------------------------------------------ primitives *)
+
+Ltac eqb_cases :=
+  repeat match goal with
+         | |- context [Nat.eqb ?a ?b] => destruct (Nat.eqb_spec a b); subst
+         | H : context [Nat.eqb ?a ?b] |- _ => destruct (Nat.eqb_spec a b); subst
+         end.
+
+Lemma alloc_ok X st c : invx X st -> invx (st_next st :: X) (snd (alloc c st)).
+Proof.
+  intros I. pose proof (ix_fresh _ _ I) as Hf.
+  constructor; simpl; try intro x.
+  - pose proof (ix_own _ _ I x). lia.
+  - pose proof (ix_log _ _ I x). lia.
+  - pose proof (ix_once _ _ I x). destruct (Nat.eqb_spec (st_next st) x); [|lia].
+    subst. rewrite (Hf (st_next st)); lia.
+  - intro H. destruct (Nat.eqb_spec (st_next st) x); [lia|]. apply Hf. lia.
+  - apply (ix_nofault _ _ I).
+Qed.
+
+Lemma delete_eq X st l : invx (l :: X) st ->
+  delete_content (Some l) st =
+  mkSt (hrem l (st_heap st)) (st_next st) (st_alog st) (l :: st_dlog st) (st_pool st) (st_faults st).
+Proof.
+  intro I. unfold delete_content.
+  destruct (hget l (st_heap st)) eqn:E; auto.
+  apply hget_none_cnt in E. pose proof (ix_own _ _ I l). simpl in H. rewrite Nat.eqb_refl in H. lia.
+Qed.
+
+Lemma delete_ok X st l : invx (l :: X) st -> invx X (delete_content (Some l) st).
+Proof.
+  intro I. rewrite (delete_eq _ _ _ I).
+  pose proof (ix_key1 _ _ l I) as K1.
+  pose proof (ix_own _ _ I l) as Ol. simpl in Ol. rewrite Nat.eqb_refl in Ol.
+  constructor; simpl; try intro x.
+  - rewrite cnt_keys_hrem. pose proof (ix_own _ _ I x) as Ox. simpl in Ox.
+    destruct (Nat.eqb_spec l x); subst; lia.
+  - rewrite cnt_keys_hrem. pose proof (ix_log _ _ I x).
+    destruct (Nat.eqb_spec l x); subst; lia.
+  - apply (ix_once _ _ I).
+  - apply (ix_fresh _ _ I).
+  - apply (ix_nofault _ _ I).
+Qed.
+
+Lemma delete_opt_ok X st p : invx (olist p ++ X) st -> invx X (delete_content p st).
+Proof. destruct p; simpl; auto. apply delete_ok. Qed.
+
+Lemma pset_ok X st d s :
+  d < length (st_pool st) -> invx (srefs s ++ X) st -> invx (srefs (pget d st) ++ X) (pset d s st).
+Proof.
+  intros Hd I. constructor; simpl; try apply I.
+  intro x. pose proof (cnt_refs_upd x d s _ Hd). pose proof (ix_own _ _ I x).
+  rewrite cnt_app in *. unfold pget. lia.
+Qed.
+
+(* a location owned by a temporary is not referenced by any container *)
+Lemma temp_not_in_pool X st l e : invx (l :: X) st -> pget e st <> Live (Some l).
+Proof.
+  intros I H. apply cnt_refs_nth in H. pose proof (ix_own _ _ I l). pose proof (ix_key1 _ _ l I).
+  simpl in H0. rewrite Nat.eqb_refl in H0. lia.
+Qed.
+
+Lemma is_live_lt d st : is_live d st = true -> d < length (st_pool st).
+Proof.
+  unfold is_live, pget. intro H. destruct (nth d (st_pool st) Dead) eqn:E; [discriminate|].
+  eapply nth_live_lt; eauto.
+Qed.
+
+Lemma is_live_content d st : is_live d st = true -> pget d st = Live (content d st).
+Proof. unfold is_live, content. destruct (pget d st); auto; discriminate. Qed.
+
+Lemma is_free_lt d st : is_free d st = true -> d < length (st_pool st) /\ pget d st = Dead.
+Proof.
+  unfold is_free, is_live. intro H. apply andb_prop in H. destruct H as [H1 H2].
+  apply Nat.ltb_lt in H1. split; auto. destruct (pget d st); auto; discriminate.
+Qed.
+
+Lemma srefs_live c : srefs (Live c) = olist c.
+Proof. destruct c; auto. Qed.
